@@ -23,10 +23,14 @@ const (
 	CFilter        // ChainSource.GetCFilter (via blockFilterMatches)
 	CBlock         // ChainSource.GetBlock
 	NumCB
+	// CBestPost is a second gate inside BestBlock, passed AFTER the tip to be
+	// returned was read: what happens there (blocks arriving, requests) is
+	// not reflected in the returned value, as with the real chain service.
+	CBestPost = NumCB
 )
 
 // CBName names callback kinds.
-var CBName = [NumCB]string{"best", "hash", "filter", "block"}
+var CBName = [NumCB + 1]string{"best", "hash", "filter", "block", "best-post"}
 
 // ErrBeyondTip is returned when the scanner asks for something above the
 // visible best height (it never should).
@@ -102,6 +106,9 @@ func (s *Source) BestBlock() (*headerfs.BlockStamp, error) {
 	}
 	v := s.Visible()
 	n := s.ci.Path[v]
+	if s.Gate != nil {
+		_ = s.Gate(CBestPost, v)
+	}
 	if s.AfterBest != nil {
 		s.AfterBest(v, false)
 	}
